@@ -24,7 +24,7 @@ EXTRA_VALUES = {'x.rx': ['c', 'ab'], 'x.rx2': ['d'], 'x.enum': ['c', 'A'], 'x.en
 
 OT_EDITS = ['none', 'none', 'bump', 'enum-extend', 'enum-shrink', 'enum-replace', 'enum-reorder', 'regex-extend', 'regex-drop',
             'regex-replace', 'regex-add', 'regex-prefix-only', 'regex-empty', 'datatype-change', 'datatype-widen', 'free-change']
-ET_EDITS = ['none', 'bump', 'optional-on', 'optional-off', 'multi-on', 'multi-off', 'cardinality', 'cardinality', 'add-optional', 'add-mandatory', 'remove-prop',
+ET_EDITS = ['none', 'bump', 'optional-on', 'optional-off', 'multi-on', 'multi-off', 'cardinality', 'cardinality', 'card-mixed', 'card-mixed', 'add-optional', 'add-mandatory', 'remove-prop',
             'merge-change', 'objecttype-change', 'add-attachment', 'remove-attachment', 'attachment-encoding', 'free-change',
             'add-optional-hashed', 'generic']
 
@@ -119,11 +119,31 @@ def edit_et(rng, et, ots, how):
         p['multivalued'] = True
     elif how == 'multi-off' and p['merge'] not in ('add', 'set'):
         p['multivalued'] = False
+    elif how == 'card-mixed':
+        # one flag improves while the other degrades: (mandatory, multi-valued) <-> (optional, single-valued)
+        mixed = [q for q in props if q['merge'] not in ('add', 'set', 'match') and q['optional'] != q['multivalued']]
+        if not mixed:
+            free = [q for q in props if q['merge'] not in ('add', 'set', 'match')]
+            if free:
+                q = rng.choice(free)
+                q['optional'], q['multivalued'] = False, True
+                return edit_et(rng, et, ots, 'none')
+        else:
+            q = rng.choice(mixed)
+            q['optional'], q['multivalued'] = not q['optional'], not q['multivalued']
     elif how == 'cardinality':
-        # both flags at once, every combination
-        p['optional'] = rng.random() < 0.5
-        if p['merge'] not in ('add', 'set', 'match'):
-            p['multivalued'] = rng.random() < 0.5
+        # both flags at once: prefer a property whose flags can both change, flip both (one improves while the other
+        # degrades) or draw every combination
+        free = [q for q in props if q['merge'] not in ('add', 'set', 'match')]
+        if free:
+            p = rng.choice(free)
+        if p['merge'] not in ('add', 'set', 'match') and rng.random() < 0.6:
+            p['optional'] = not p['optional']
+            p['multivalued'] = not p['multivalued']
+        else:
+            p['optional'] = rng.random() < 0.5
+            if p['merge'] not in ('add', 'set', 'match'):
+                p['multivalued'] = rng.random() < 0.5
     elif how in ('add-optional', 'add-mandatory', 'add-optional-hashed'):
         q = G.base_prop('n%d' % len(props), rng.choice([o['name'] for o in ots]))
         q['optional'] = how != 'add-mandatory'
